@@ -436,6 +436,7 @@ func runC04(c *Ctx) {
 	ruleTemplatesNotPatched(c, "C04.14")
 	// C04.15 variadic providers are called with arg...
 	ruleVariadicProviderCalls(c, "C04.15")
+	ruleUserSyntaxRequalified(c, "C04.16")
 	ruleEllipsisOnlyLast(c, "C04.6")
 
 	// C04.10 user identifiers reach the allocator (shared with C12): otherwise a generated local can shadow a user name
